@@ -26,7 +26,7 @@ CONNECTED = [
     ("X\tabc\tdef", "gfa2", [], None),
 ]
 DEFAULT_DT = {"int": "i", "float": "f", "str": "Z", "char": "Z", "json": "J", "intarray": "B", "floatarray": "B",
-              "bytes": "H"}
+              "bytes": "H", "json-ordered": "J"}
 KINDS = ["int", "float", "str", "char", "json", "intarray", "floatarray", "bytes"]
 
 
@@ -76,6 +76,8 @@ def cases(rng, tier, shard, nshards):
             # a clone of the line got a value of another class under the same tag name before
             k2 = rng.choice([k for k in KINDS if k != kind])
             sib = {"kind": k2, "value": V.py_value(rng, k2)}
+        if good and kind == "json" and isinstance(v, dict) and rng.random() < 0.4:
+            kind = "json-ordered"       # (the same value as a collections.OrderedDict: a dict like any other)
         c = {"kind": kind, "value": v, "good": good, "how": rng.choice(["set", "attr", "datatype"]),
              "carrier": rng.randrange(len(CARRIERS)), "vlevel": rng.choice([0, 1, 2, 3]),
              "tag": V.tagname(rng), "sibling": sib}
@@ -122,6 +124,9 @@ def bad_value(rng):
 
 
 def materialise(kind, v):
+    if kind == "json-ordered":
+        import collections
+        return collections.OrderedDict(v)
     if kind == "float" and isinstance(v, str):
         return float(v)
     if kind == "bytes":
